@@ -110,6 +110,18 @@ def r2_binding(cx):
                 why = "each argument is results.get(<dep>) (None when the dependency produced nothing), with no filtering"
         elif isinstance(src, ast.Call) and call_name(src) in ("list", "map") and "self.deps" in U(src) and "%s.get" % res in U(src):
             ok = True
+        elif isinstance(src, ast.List) and not src.elts and isinstance(star[0].value, ast.Name):
+            # accumulate loop:  args = []; for d in self.deps: args.append(results.get(d))   (results.get possibly bound to a local first)
+            nm = star[0].value.id
+            aps = [x for x in find_calls(fn.body, attr="append") if U(x.func.value) == nm]
+            lp = enclosing(aps[0], ast.For) if len(aps) == 1 else None
+            if lp is not None and U(lp.iter) == "self.deps" and not guard_texts(aps[0], stop=lp) and not [x for x in walk_body(lp.body) if isinstance(x, (ast.Break, ast.Continue, ast.Return))] \
+                    and len(aps[0].args) == 1 and isinstance(aps[0].args[0], ast.Call) and [U(a_) for a_ in aps[0].args[0].args] == [U(lp.target)] and not aps[0].args[0].keywords:
+                f_ = aps[0].args[0].func
+                f_ = trace(f_, fn) if isinstance(f_, ast.Name) else f_
+                ok = U(f_) == "%s.get" % res
+            elif lp is not None and U(lp.iter) in ("self.dependencies", "set(self.deps)"):
+                why = "argument list is built by iterating the ordered list self.deps, not the unordered set %s" % U(lp.iter)
         cx.require(ok, c, why, construct="%s  with  %s" % (short(c), short(src)))
     rets = [n for n in walk_body(fn.body) if isinstance(n, ast.Return)]
     cx.require(all(r.value is not None and any(r.value is c or (isinstance(r.value, ast.Name)) for c in calls) for r in rets) and rets, fn,
